@@ -838,11 +838,15 @@ theorem dfBuild_rows (ks : List String) (r0 : List Val) (rest : List (List Val))
   simp only [List.map_cons]
   rw [colsOf_single ks r0 h0, appendRows_cols ks [r0] rest hnd hr]
   have hl := colsOf_lengths ks ([r0] ++ rest)
-  have : ((colsOf ks ([r0] ++ rest)).all fun c => c.2.length == (rest.map fun r => ks.zip r).length + 1) = true := by
-    rw [List.all_eq_true]
-    intro c hc
-    have := hl c hc
-    simp [this]
+  have : sameLen (colsOf ks ([r0] ++ rest)) = true := by
+    cases hc : colsOf ks ([r0] ++ rest) with
+    | nil => rfl
+    | cons c cs =>
+      simp only [sameLen, List.all_eq_true]
+      intro d hd
+      have h1 := hl c (by rw [hc]; simp)
+      have h2 := hl d (by rw [hc]; exact List.mem_cons_of_mem _ hd)
+      simp [h1, h2]
   simp only [this, if_true]
   simp
 
